@@ -16,23 +16,24 @@ mod = rel[:-3].replace("/", ".")
 ref = canon.reference_functions()
 
 
-def pretty(src):
-    t = ast.parse(src); fn = t.body[0]
-    canon._strip_docstrings(fn)
-    for sc in [fn] + [n for n in ast.walk(fn) if isinstance(n, ast.FunctionDef) and n is not fn]:
-        while canon._inline_once(sc):
-            pass
-    canon._rename(fn); canon._Exprs().visit(fn)
-    return ast.unparse(ast.fix_missing_locations(fn))
+functions, methods = canon._new_helpers(tree, mod, ref)
+
+
+def pretty(src, helpers=None, ref_nested=None):
+    fn = canon.canonical_tree(src, helpers, ref_nested)
+    return ast.unparse(ast.fix_missing_locations(fn)) if fn is not None else "<no canonical form>"
 
 
 for q, body, i, fn in canon.outer_functions(tree, mod):
     r = ref.get(q)
     if r is None or canon.raw_digest(fn) == r["raw"] or sub not in q:
         continue
-    a, b = canon.canonical(ast.unparse(fn)), canon.canonical(r["src"])
+    parts = q[len(mod) + 1:].split(".")
+    helpers = (functions, methods if len(parts) > 1 else {}, parts[-2] if len(parts) > 1 else None)
+    nested = canon._nested_names(r["src"])
+    a, b = canon.canonical(ast.unparse(fn), helpers, nested), canon.canonical(r["src"])
     if a == b:
         continue
     print("=====", q)
-    for line in difflib.unified_diff(pretty(r["src"]).splitlines(), pretty(ast.unparse(fn)).splitlines(), "reference", "variant", lineterm="", n=1):
+    for line in difflib.unified_diff(pretty(r["src"]).splitlines(), pretty(ast.unparse(fn), helpers, nested).splitlines(), "reference", "variant", lineterm="", n=1):
         print(line)
